@@ -22,7 +22,7 @@ def build(reg):
     record.add_record_bindings(reg)
     record.add_open_bindings(reg)
     record.add_lifecycle(reg)
-    specs = record.add_merge(reg)
+    specs = record.add_merge(reg) + record.add_codec(reg)
     return {
         "verify": specs,
         "lemmas": [("chain-continuation", lemma_chain_continuation)],
